@@ -264,3 +264,76 @@ impl<M: Math> DiagMassMatrix<M> {
         math.array_mult(untransformed_gradient, &self.stds, transformed_gradient);
     }
 }
+
+#[cfg(nuts_rs_verif)]
+impl<M: Math> DiagMassMatrix<M> {
+    pub fn verif_new(math: &mut M, store_mass_matrix: bool) -> Self {
+        Self::new(math, store_mass_matrix)
+    }
+
+    pub fn verif_set_transform(&mut self, math: &mut M, stds: &[f64], mean: &[f64]) {
+        let mut s = math.new_array();
+        math.read_from_slice(&mut s, stds);
+        let mut m = math.new_array();
+        math.read_from_slice(&mut m, mean);
+        self.set_transform(math, &s, &m);
+    }
+
+    /// `(stds, inv_stds, mean, logdet, id)`
+    pub fn verif_params(&self, math: &mut M) -> (Vec<f64>, Vec<f64>, Vec<f64>, f64, i64) {
+        (
+            math.box_array(&self.stds).into_vec(),
+            math.box_array(&self.inv_stds).into_vec(),
+            math.box_array(&self.mean).into_vec(),
+            self.logdet,
+            self.id,
+        )
+    }
+
+    pub fn verif_update_diag_draw_grad(
+        &mut self,
+        math: &mut M,
+        draw_mean: &[f64],
+        grad_mean: &[f64],
+        draw_var: &[f64],
+        grad_var: &[f64],
+        fill_invalid: Option<f64>,
+        clamp: (f64, f64),
+    ) {
+        let mut a = [math.new_array(), math.new_array(), math.new_array(), math.new_array()];
+        math.read_from_slice(&mut a[0], draw_mean);
+        math.read_from_slice(&mut a[1], grad_mean);
+        math.read_from_slice(&mut a[2], draw_var);
+        math.read_from_slice(&mut a[3], grad_var);
+        self.update_diag_draw_grad(math, &a[0], &a[1], &a[2], &a[3], fill_invalid, clamp);
+    }
+
+    pub fn verif_update_diag_draw(
+        &mut self,
+        math: &mut M,
+        draw_mean: &[f64],
+        draw_var: &[f64],
+        scale: f64,
+        fill_invalid: Option<f64>,
+        clamp: (f64, f64),
+    ) {
+        let mut a = [math.new_array(), math.new_array()];
+        math.read_from_slice(&mut a[0], draw_mean);
+        math.read_from_slice(&mut a[1], draw_var);
+        self.update_diag_draw(math, &a[0], &a[1], scale, fill_invalid, clamp);
+    }
+
+    pub fn verif_update_diag_grad(
+        &mut self,
+        math: &mut M,
+        position: &[f64],
+        gradient: &[f64],
+        fill_invalid: f64,
+        clamp: (f64, f64),
+    ) {
+        let mut a = [math.new_array(), math.new_array()];
+        math.read_from_slice(&mut a[0], position);
+        math.read_from_slice(&mut a[1], gradient);
+        self.update_diag_grad(math, &a[0], &a[1], fill_invalid, clamp);
+    }
+}
